@@ -42,6 +42,9 @@ def extract():
     rel = "seq_join/mod.rs"
     m = read(rel)
     need("seqjoin.try_join_all", rel, m, r"seq_join\(active, iter\(source\)\)\.try_collect\(\)")
+    # the whole body of seq_try_join_all is the single expression (no statement consulting size_hint before it)
+    need("seqjoin.try_join_all_body", rel, m, r"E: Send \+ 'static,\s*\{\s*seq_join\(active, iter\(source\)\)\.try_collect\(\)\s*\}")
+    need("seqjoin.try_join_forwards_active_work", rel, m, r"E: Send \+ 'static,\s*\{\s*seq_try_join_all\(self\.active_work\(\), iterable\)\s*\}")
     need("seqjoin.parallel_join", rel, m, r"#\[cfg\(not\(feature = \"multi-threading\"\)\)\]\s*fn parallel_join<I>\(&self, iterable: I\) -> futures::future::TryJoinAll<I::Item>.*?futures::future::try_join_all\(iterable\)")
     need("seqjoin.local_selected", rel, m, r"#\[cfg\(not\(feature = \"multi-threading\"\)\)\]\s*pub use local::SequentialFutures;")
     rel = "protocol/context/dzkp_validator.rs"
